@@ -1,10 +1,15 @@
 //! hx_c40: Arrow helper transformations preserve values (C40).
 mod arr;
+mod c40;
+mod corpus;
+mod jsonarm;
 mod probe;
+mod spec;
 
 fn main() {
     let (sub, args) = hxlib::util::Args::parse();
     let code = match sub.as_str() {
+        "c40" => c40::run(&args),
         "probe" => probe::run(&args),
         _ => {
             eprintln!("unknown subcommand {sub}");
